@@ -21,7 +21,7 @@ CONSTANTS Alphabet, MaxLen, Emit, Source,
 
 \* SolverMachine takes the same Atoms
 M == INSTANCE SolverMachine WITH
-        BadAtoms <- {}, Lenient <- ("logic_rhs_missing" \in KnownDevs),   \* AtomBase and/or short-circuit: open finding until fix 12876f2
+        BadAtoms <- {}, Lenient <- ("logic_rhs_missing" \in KnownDevs), PyEq <- ("eq_nonatom_sides" \in KnownDevs),   \* AtomBase and/or short-circuit: open finding until fix 12876f2
         OpTable  <- {"**", "*", "/", "+", "-", "==", "!=", "<=", ">=", "<", ">", "!", "&&", "||",
                      "(", "f1(", "f2("},
         Steps    <- << [ops |-> {"(", "f1(", "f2("}, otype |-> "ARGS"],
